@@ -457,6 +457,16 @@ def check_mw(case, ctx):
         ctx.label('formula-string')
         ctx.close('C12.mw/formula-string', pmutt.get_molecular_weight(form), total, rtol=1e-13,
                   detail=form)
+        # the weight of a formula does not depend on what a caller did with an earlier parse of the same text,
+        # nor is the caller's own composition dictionary touched
+        parsed = pmutt.parse_formula(form)
+        for k_ in list(parsed):
+            parsed[k_] += 1
+        ctx.close('C12.mw/formula-string-after-edit', pmutt.get_molecular_weight(form), total, rtol=1e-13, detail=form)
+    before = dict(comp)
+    pmutt.get_molecular_weight(comp)
+    if comp != before:
+        ctx.fail('C12.mw/composition-modified', '%r -> %r' % (before, comp))
 
 
 @st.composite
